@@ -148,7 +148,9 @@ func (g *GUID) Decode(b []byte) (int, error) {
 	g.Data1 = buf.ReadUint32()
 	g.Data2 = buf.ReadUint16()
 	g.Data3 = buf.ReadUint16()
-	g.Data4 = buf.ReadN(8)
+	// always leave 8 bytes in Data4, also when the buffer is too short
+	g.Data4 = make([]byte, 8)
+	copy(g.Data4, buf.ReadN(8))
 	return buf.Pos(), buf.Error()
 }
 
@@ -157,12 +159,22 @@ func (g *GUID) Encode() ([]byte, error) {
 	buf.WriteUint32(g.Data1)
 	buf.WriteUint16(g.Data2)
 	buf.WriteUint16(g.Data3)
-	buf.Write(g.Data4)
+	d4 := g.data4()
+	buf.Write(d4[:])
 	return buf.Bytes(), buf.Error()
+}
+
+// data4 returns the last 8 bytes of the GUID. A Data4 field
+// which is too short is padded with zeros, a longer one is cut.
+func (g *GUID) data4() [8]byte {
+	var d4 [8]byte
+	copy(d4[:], g.Data4)
+	return d4
 }
 
 // String returns GUID in human-readable string.
 func (g *GUID) String() string {
+	d4 := g.data4()
 	return fmt.Sprintf("%0*X-%0*X-%0*X-%0*X-%0*X",
 		8,
 		g.Data1,
@@ -171,9 +183,9 @@ func (g *GUID) String() string {
 		4,
 		g.Data3,
 		4,
-		g.Data4[:2],
+		d4[:2],
 		12,
-		g.Data4[2:],
+		d4[2:],
 	)
 }
 
